@@ -228,3 +228,325 @@ Proof.
 Qed.
 
 End MemoP.
+
+(* refutations for A: what the lock, its kind and the look-up-first order buy *)
+Definition g2 : graph nat := [mkTask [] (fun _ => 7); mkTask [0] (fun l => 1 + fold_left Nat.add l 0)].
+(* without the lock two threads create the same name twice (values stay right: memo_values_safe) *)
+Lemma memo_unlocked_twice :
+  exists schedule, m_count (g_sh (uexec _ _ (mline nat g2 (fun k => Nat.eqb k 1) true true) (mstart nat (fun _ => 0)) (m0 nat) schedule)) 0 = 2.
+Proof. exists [0; 1; 0; 1; 0; 1; 0; 1]. vm_compute. reflexivity. Qed.
+(* with a plain Lock a virtual sensor that looks up its input never gets it *)
+Lemma memo_plain_lock_crashes :
+  exists schedule, g_th (gexec _ _ (mline nat g2 (fun k => Nat.eqb k 1) false true) (mstart nat (fun _ => 1)) (m0 nat) schedule) 0 = GFail.
+Proof. exists [0; 0; 0]. vm_compute. reflexivity. Qed.
+(* if the templates were consulted before the cache, a second request would create the sensor again, lock or no lock *)
+Lemma memo_templates_first_twice :
+  exists schedule, m_count (g_sh (gexec _ _ (mline nat g2 (fun k => Nat.eqb k 1) true false) (mstart nat (fun _ => 0)) (m0 nat) schedule)) 0 = 2.
+Proof. exists [0; 0; 0; 0; 0; 1; 1; 1; 1; 1]. vm_compute. reflexivity. Qed.
+(* non-vacuity: a finished run with a nested virtual sensor *)
+Lemma memo_example :
+  let c := gexec _ _ (mline nat g2 (fun k => Nat.eqb k 1) sensor_reentrant c20_sensor_get_lookup_first)
+                 (mstart nat (fun t => 1 - t)) (m0 nat) [0; 0; 1; 0; 0; 0; 1; 0; 0; 0; 0; 1; 1; 1; 1] in
+  option_map (mresult nat) (match g_th c 0 with GDone lo => Some lo | _ => None end) = Some (Some 8) /\
+  option_map (mresult nat) (match g_th c 1 with GDone lo => Some lo | _ => None end) = Some (Some 7) /\
+  map (m_count (g_sh c)) [0; 1] = [1; 1].
+Proof. vm_compute. repeat split; reflexivity. Qed.
+
+(* the translated facts the instance theorems rest on *)
+Lemma sensor_reentrant_true : sensor_reentrant = true.
+Proof. reflexivity. Qed.
+Lemma sensor_lookup_first_true : c20_sensor_get_lookup_first = true.
+Proof. reflexivity. Qed.
+(* every virtual-sensor function of katdal, as translated: fetch the inputs, compute, store, return what was stored *)
+Lemma virtual_functions_fit : forallb (fun p => skel_ok (snd p)) c20_virtual_fn_skeletons = true.
+Proof. vm_compute. reflexivity. Qed.
+Lemma skel_ok_example : skel_ok [4; 1; 1; 4; 2; 2; 3]%Z = true /\ skel_ok [1; 2; 1; 3]%Z = false /\ skel_ok [1; 2; 5]%Z = false
+                        /\ skel_ok [1; 6; 2; 3]%Z = false.
+Proof. repeat split; reflexivity. Qed.
+
+(* ================================================================================================================ *)
+(* B. the wildcard property map                                                                                      *)
+(* ================================================================================================================ *)
+Section PropsP.
+Variable wild : nat -> bool.          (* which keys of the map are wildcard patterns *)
+Variable name : nat -> nat.           (* the sensor thread t extracts *)
+Hypothesis Hname : forall t, wild (name t) = false.      (* a sensor name is not a pattern *)
+Variable sh0 : list nat.
+Variable code : list Z.
+Hypothesis Hcode : props_code_ok code = true.
+
+Definition tail_ok (l : list Z) : Prop := l = [2%Z; 3%Z] \/ l = [3%Z].
+Definition PI (sh : list nat) : Prop := filter wild sh = filter wild sh0.
+(* what the merged properties are built from: the wildcard entries the thread iterated over *)
+Definition PPost (t : nat) (lo : plocal) : Prop := filter wild (p_seen lo) = filter wild sh0.
+Definition PJ (t : nat) (sh : list nat) (lo : plocal) : Prop :=
+  PI sh /\ p_name lo = name t /\
+  match p_iter lo with
+  | Some (pos, size) => size = List.length sh /\ p_seen lo = firstn pos sh /\ tail_ok (p_todo lo)
+  | None => (p_seen lo = [] /\ (p_todo lo = code \/ (p_todo lo = tl code /\ existsb (Nat.eqb (name t)) sh = true)))
+            \/ (p_seen lo = sh /\ tail_ok (p_todo lo))
+  end.
+
+Lemma zlist_eqb_eq a : forall b, zlist_eqb a b = true -> a = b.
+Proof.
+  induction a as [|x r IH]; intros [|y s] H; simpl in H; try discriminate; [reflexivity|].
+  apply andb_true_iff in H. destruct H as [H1 H2]. apply Z.eqb_eq in H1. subst y. rewrite (IH s H2). reflexivity.
+Qed.
+Lemma code_shape : exists tl2, code = 0%Z :: 1%Z :: tl2 /\ tail_ok tl2.
+Proof.
+  unfold props_code_ok in Hcode. apply orb_true_iff in Hcode. destruct Hcode as [H|H]; apply zlist_eqb_eq in H.
+  - exists [2%Z; 3%Z]. split; [exact H|left; reflexivity].
+  - exists [3%Z]. split; [exact H|right; reflexivity].
+Qed.
+
+Lemma firstn_S_nth {A} (l : list A) n x : nth_error l n = Some x -> firstn (S n) l = firstn n l ++ [x].
+Proof.
+  revert n. induction l as [|a l IH]; intros [|n] H; simpl in *; try discriminate.
+  - injection H as ->. reflexivity.
+  - rewrite (IH n H). reflexivity.
+Qed.
+
+Lemma filter_snoc_name sh t : filter wild (sh ++ [name t]) = filter wild sh.
+Proof. rewrite filter_app. simpl. rewrite Hname. apply app_nil_r. Qed.
+
+Lemma existsb_snoc_self sh n : existsb (Nat.eqb n) (sh ++ [n]) = true.
+Proof. rewrite existsb_app. simpl. rewrite Nat.eqb_refl. rewrite orb_true_r. reflexivity. Qed.
+
+Lemma props_start t sh : PI sh -> PJ t sh (pstart code name t).
+Proof. intros H. split; [exact H|]. split; [reflexivity|]. simpl. left. split; [reflexivity|left; reflexivity]. Qed.
+
+Lemma props_go t sh lo sh' lo' : PJ t sh lo -> pline sh lo = Go sh' lo' -> PJ t sh' lo'.
+Proof.
+  destruct code_shape as (tl2 & Ecode & Htl).
+  intros (HI & Hn & HJ). unfold pline. destruct lo as [nm todo it seen]. simpl in *. subst nm.
+  destruct it as [[pos size]|].
+  - destruct HJ as (Hs & Hseen & Ht). subst size. rewrite Nat.eqb_refl. simpl.
+    destruct (nth_error sh pos) as [k|] eqn:En; intros H; injection H as <- <-.
+    + split; [exact HI|]. split; [reflexivity|]. simpl. split; [reflexivity|]. split; [|exact Ht].
+      rewrite Hseen. symmetry. apply firstn_S_nth. exact En.
+    + split; [exact HI|]. split; [reflexivity|]. simpl. right. split; [|exact Ht].
+      rewrite Hseen. apply firstn_all2. apply nth_error_None. exact En.
+  - destruct HJ as [[Hseen [Ht|[Ht Hin]]]|[Hseen Ht]].
+    + rewrite Ht, Ecode. intros H. injection H as <- <-. split.
+      * unfold PI in *. destruct (existsb (Nat.eqb (name t)) sh); [exact HI|]. rewrite filter_snoc_name. exact HI.
+      * split; [reflexivity|]. simpl. left. split; [exact Hseen|]. right. rewrite Ecode. simpl. split; [reflexivity|].
+        destruct (existsb (Nat.eqb (name t)) sh) eqn:E; [exact E|apply existsb_snoc_self].
+    + rewrite Ht, Ecode. simpl. intros H. injection H as <- <-. split; [exact HI|]. split; [reflexivity|]. simpl.
+      split; [reflexivity|]. split; [rewrite Hseen; reflexivity|exact Htl].
+    + destruct Ht as [-> | ->]; intros H; [injection H as <- <-|discriminate].
+      split; [exact HI|]. split; [reflexivity|]. simpl. right. split; [exact Hseen|right; reflexivity].
+Qed.
+
+Lemma props_fin t sh lo lo' : PJ t sh lo -> pline sh lo = Fin lo' -> PI sh /\ PPost t lo'.
+Proof.
+  destruct code_shape as (tl2 & Ecode & Htl).
+  intros (HI & Hn & HJ). unfold pline. destruct lo as [nm todo it seen]. simpl in *.
+  destruct it as [[pos size]|].
+  - destruct HJ as (Hs & _). subst size. rewrite Nat.eqb_refl. simpl. destruct (nth_error sh pos); discriminate.
+  - destruct HJ as [[Hseen [Ht|[Ht _]]]|[Hseen Ht]].
+    + rewrite Ht, Ecode. discriminate.
+    + rewrite Ht, Ecode. discriminate.
+    + destruct Ht as [-> | ->]; [discriminate|]. intros H. injection H as <-. split; [exact HI|].
+      unfold PPost. simpl. rewrite Hseen. exact HI.
+Qed.
+
+Lemma props_nocrash t sh lo : PJ t sh lo -> pline sh lo <> Crash.
+Proof.
+  destruct code_shape as (tl2 & Ecode & Htl).
+  intros (HI & Hn & HJ). unfold pline. destruct lo as [nm todo it seen]. simpl in *.
+  destruct it as [[pos size]|].
+  - destruct HJ as (Hs & _). subst size. rewrite Nat.eqb_refl. simpl. destruct (nth_error sh pos); discriminate.
+  - destruct HJ as [[Hseen [Ht|[Ht _]]]|[Hseen Ht]].
+    + rewrite Ht, Ecode. discriminate.
+    + rewrite Ht, Ecode. discriminate.
+    + destruct Ht as [-> | ->]; discriminate.
+Qed.
+
+(* _get_props inside the lock, any number of threads extracting any sensors for the first time, any schedule: the
+   iteration never meets a dict that changed size, every thread merges exactly the wildcard entries a single thread
+   would merge, and the wildcard entries themselves are never disturbed *)
+Theorem props_locked_safe schedule :
+  let c := gexec _ _ pline (pstart code name) sh0 schedule in
+  (forall t, g_th c t <> GFail) /\
+  (forall t lo, g_th c t = GDone lo -> PPost t lo) /\
+  (g_lock c = None -> PI (g_sh c)) /\
+  (forall t lo, g_th c t = GIn lo -> g_lock c = Some t /\ PJ t (g_sh c) lo).
+Proof.
+  apply (guarded_inv_safe _ _ pline (pstart code name) PI PPost PJ).
+  - exact props_start.
+  - exact props_go.
+  - exact props_fin.
+  - exact props_nocrash.
+  - reflexivity.
+Qed.
+End PropsP.
+
+(* outside a lock the same code is NOT safe: a second thread inserts its entry while the first one iterates *)
+Lemma props_unlocked_refuted :
+  exists schedule, g_th (uexec _ _ pline (pstart c20_props_code (fun t => 5 + t)) [9] schedule) 0 = GFail.
+Proof. exists [0; 0; 0; 1; 1; 0]. vm_compute. reflexivity. Qed.
+Lemma props_code_is_ok : props_code_ok c20_props_code = true.
+Proof. reflexivity. Qed.
+Lemma props_example :
+  let c := gexec _ _ pline (pstart c20_props_code (fun t => 5 + t)) [9; 2] [0; 0; 0; 1; 1; 0; 0; 0; 0; 0; 0; 0; 1; 1; 1; 1; 1; 1; 1; 1; 1; 1] in
+  match g_th c 0, g_th c 1 with
+  | GDone a, GDone b => filter (fun k => Nat.eqb k 9) (p_seen a) = [9] /\ p_seen b = [9; 2; 5; 6]
+  | _, _ => False
+  end.
+Proof. vm_compute. split; reflexivity. Qed.
+(* ConcatenatedSensorCache: its merged property map has a guard of its own (kind, created once, every access inside) *)
+Lemma concat_props_guarded :
+  c20_concat_lock_kind = 2%Z /\ c20_concat_lock_once = true /\ only_init c20_concat_props_unlocked_methods = true.
+Proof. repeat split; reflexivity. Qed.
+
+(* ================================================================================================================ *)
+(* C. S3ChunkStore._verified_buckets (no lock)                                                                       *)
+(* ================================================================================================================ *)
+Section VerifyP.
+Variable status : nat -> Z.
+Variable code : list Z.
+Variable bucket : nat -> nat.
+Hypothesis Hcode : verify_code_ok code = true.
+
+Definition good (b : nat) : Prop := status b <> 0%Z /\ status b <> 1%Z.
+Definition VC (sh : list nat) : Prop := forall b, In b sh -> good b.
+Definition VJ (t : nat) (lo : vlocal) : Prop :=
+  v_bucket lo = bucket t /\ v_out lo = 0%Z /\
+  (existsb (Z.eqb 1) (firstn (v_pc lo) code) = true -> status (bucket t) <> 0%Z) /\
+  (existsb (Z.eqb 3) (firstn (v_pc lo) code) = true -> status (bucket t) <> 1%Z).
+Definition VPost (t : nat) (lo : vlocal) : Prop := v_bucket lo = bucket t /\ v_out lo = vspec status (bucket t).
+
+Lemma vspec_good b : good b -> vspec status b = 1%Z.
+Proof.
+  intros [H0 H1]. unfold vspec. apply Z.eqb_neq in H0. apply Z.eqb_neq in H1. rewrite H0, H1. reflexivity.
+Qed.
+
+Lemma code_parts :
+  forallb known_instr code = true /\ checks_before code (List.length code) = true /\
+  forall i, nth_error code i = Some 4%Z -> checks_before code i = true.
+Proof.
+  unfold verify_code_ok in Hcode. apply andb_true_iff in Hcode. destruct Hcode as [H12 H3].
+  apply andb_true_iff in H12. destruct H12 as [H1 H2]. repeat split; auto.
+  intros i Hi. rewrite forallb_forall in H3.
+  assert (i < List.length code) as Hlt by (apply nth_error_Some; rewrite Hi; discriminate).
+  specialize (H3 i). rewrite Hi in H3. apply H3. apply in_seq. lia.
+Qed.
+
+Lemma existsb_firstn_S c i x : nth_error code i = Some x ->
+  existsb (Z.eqb c) (firstn (S i) code) = (existsb (Z.eqb c) (firstn i code) || Z.eqb c x)%bool.
+Proof.
+  intros H. assert (firstn (S i) code = firstn i code ++ [x]) as ->.
+  { clear Hcode. revert i H. induction code as [|a l IH]; intros [|i] H; simpl in *; try discriminate.
+    - injection H as ->. reflexivity.
+    - rewrite (IH i H). reflexivity. }
+  rewrite existsb_app. simpl. rewrite orb_false_r. reflexivity.
+Qed.
+
+Lemma VJ_next t lo x : VJ t lo -> nth_error code (v_pc lo) = Some x ->
+  (x = 1%Z -> status (bucket t) <> 0%Z) -> (x = 3%Z -> status (bucket t) <> 1%Z) ->
+  VJ t (mkVL (v_bucket lo) (S (v_pc lo)) 0%Z).
+Proof.
+  intros (Hb & Ho & H1 & H3) En X1 X3. unfold VJ. cbn [v_bucket v_pc v_out]. repeat split; auto.
+  - rewrite (existsb_firstn_S 1%Z _ x En). intros H. apply orb_true_iff in H. destruct H as [H|H]; [auto|].
+    apply Z.eqb_eq in H. auto.
+  - rewrite (existsb_firstn_S 3%Z _ x En). intros H. apply orb_true_iff in H. destruct H as [H|H]; [auto|].
+    apply Z.eqb_eq in H. auto.
+Qed.
+
+Lemma known_cases x : known_instr x = true -> (x = 0 \/ x = 1 \/ x = 2 \/ x = 3 \/ x = 4)%Z.
+Proof. unfold known_instr. intros H. apply andb_true_iff in H. destruct H as [A B]. apply Z.leb_le in A. apply Z.leb_le in B. lia. Qed.
+Lemma instr_known i x : nth_error code i = Some x -> (x = 0 \/ x = 1 \/ x = 2 \/ x = 3 \/ x = 4)%Z.
+Proof.
+  destruct code_parts as (Hk & _ & _). intros En. rewrite forallb_forall in Hk. apply known_cases. apply Hk.
+  exact (nth_error_In _ _ En).
+Qed.
+
+Lemma verify_go t sh lo sh' lo' : VC sh -> VJ t lo -> vline status code sh lo = Go sh' lo' -> VC sh' /\ VJ t lo'.
+Proof.
+  destruct code_parts as (Hk & Hend & Hadd).
+  intros Hc HJ. unfold vline. destruct (nth_error code (v_pc lo)) as [x|] eqn:En; [|discriminate].
+  destruct (instr_known _ _ En) as [->|[->|[->|[->| ->]]]].
+  - destruct (existsb (Nat.eqb (v_bucket lo)) sh); [discriminate|]. intros H. injection H as <- <-.
+    split; [exact Hc|]. eapply VJ_next; [exact HJ|exact En|discriminate|discriminate].
+  - destruct (Z.eqb (status (v_bucket lo)) 0) eqn:E; [discriminate|]. intros H. injection H as <- <-.
+    split; [exact Hc|]. eapply VJ_next; [exact HJ|exact En| |discriminate].
+    intros _. apply Z.eqb_neq. rewrite <- (proj1 HJ). exact E.
+  - intros H. injection H as <- <-. split; [exact Hc|].
+    eapply VJ_next; [exact HJ|exact En|discriminate|discriminate].
+  - destruct (Z.eqb (status (v_bucket lo)) 1) eqn:E; [discriminate|]. intros H. injection H as <- <-.
+    split; [exact Hc|]. eapply VJ_next; [exact HJ|exact En|discriminate|].
+    intros _. apply Z.eqb_neq. rewrite <- (proj1 HJ). exact E.
+  - intros H. injection H as <- <-. split.
+    + intros b [<-|Hin]; [|apply Hc; exact Hin].
+      specialize (Hadd _ En). unfold checks_before in Hadd. apply andb_true_iff in Hadd. destruct Hadd as [A B].
+      destruct HJ as (Hb & _ & H1 & H3). rewrite Hb. split; auto.
+    + eapply VJ_next; [exact HJ|exact En|discriminate|discriminate].
+Qed.
+
+Lemma verify_fin t sh lo lo' : VC sh -> VJ t lo -> vline status code sh lo = Fin lo' -> VPost t lo'.
+Proof.
+  destruct code_parts as (Hk & Hend & Hadd).
+  intros Hc HJ. pose proof HJ as (Hb & Ho & H1 & H3). unfold vline.
+  destruct (nth_error code (v_pc lo)) as [x|] eqn:En.
+  - destruct (instr_known _ _ En) as [->|[->|[->|[->| ->]]]]; try discriminate.
+    + destruct (existsb (Nat.eqb (v_bucket lo)) sh) eqn:E; [|discriminate]. intros H. injection H as <-.
+      split; [exact Hb|]. simpl. symmetry. apply vspec_good. rewrite <- Hb. apply Hc.
+      apply existsb_exists in E. destruct E as (y & Hy & Ey). apply Nat.eqb_eq in Ey. subst y. exact Hy.
+    + destruct (Z.eqb (status (v_bucket lo)) 0) eqn:E; [|discriminate]. intros H. injection H as <-.
+      split; [exact Hb|]. simpl. unfold vspec. rewrite <- Hb, E. reflexivity.
+    + destruct (Z.eqb (status (v_bucket lo)) 1) eqn:E; [|discriminate]. intros H. injection H as <-.
+      split; [exact Hb|]. simpl. unfold vspec. rewrite <- Hb, E. rewrite orb_true_r. reflexivity.
+  - intros H. injection H as <-. split; [exact Hb|]. simpl. symmetry. apply vspec_good.
+    apply nth_error_None in En. unfold checks_before in Hend. rewrite firstn_all in Hend.
+    rewrite (firstn_all2 code En) in H1, H3. apply andb_true_iff in Hend. destruct Hend as [A B]. split; auto.
+Qed.
+
+Lemma verify_nocrash t sh lo : VC sh -> VJ t lo -> vline status code sh lo <> Crash.
+Proof.
+  intros _ _. unfold vline.
+  destruct (nth_error code (v_pc lo)) as [x|] eqn:En; [|discriminate].
+  destruct (instr_known _ _ En) as [->|[->|[->|[->| ->]]]]; try discriminate.
+  - destruct (existsb (Nat.eqb (v_bucket lo)) sh); discriminate.
+  - destruct (Z.eqb (status (v_bucket lo)) 0); discriminate.
+  - destruct (Z.eqb (status (v_bucket lo)) 1); discriminate.
+Qed.
+
+(* for every server state, every set of threads checking any buckets and EVERY interleaving of their lines (there is
+   no lock): only buckets that exist and are not empty are ever recorded as verified, and every thread ends the way a
+   single thread on a fresh store would: StoreUnavailable for a missing or empty bucket, a plain return otherwise *)
+Theorem verify_unlocked_safe schedule :
+  let c := uexec _ _ (vline status code) (vstart bucket) [] schedule in
+  (forall t, g_th c t <> GFail) /\
+  (forall t lo, g_th c t = GDone lo -> VPost t lo) /\
+  VC (g_sh c).
+Proof.
+  intros c.
+  destruct (unlocked_inv_safe _ _ (vline status code) (vstart bucket) VC VJ VPost) with (sh0 := @nil nat) (schedule := schedule)
+    as [A B C D].
+  - intros t. unfold VJ, vstart. simpl. repeat split; auto; discriminate.
+  - intros. eapply verify_go; eassumption.
+  - intros. eapply verify_fin; eassumption.
+  - intros. eapply verify_nocrash; eassumption.
+  - intros b [].
+  - split; [exact D|]. split; [exact C|exact A].
+Qed.
+End VerifyP.
+
+Lemma verify_code_is_ok : verify_code_ok c20_verify_bucket_code = true.
+Proof. reflexivity. Qed.
+(* the statement discriminates: recording the bucket BEFORE the checks lets a second thread skip them *)
+Lemma verify_add_first_refuted :
+  exists schedule, match g_th (uexec _ _ (vline (fun _ => 0%Z) [0; 4; 1; 2; 3]%Z) (vstart (fun _ => 7)) [] schedule) 1 with
+                   | GDone lo => v_out lo <> vspec (fun _ => 0%Z) 7
+                   | _ => False end.
+Proof. exists [0; 0; 0; 1; 1]. vm_compute. discriminate. Qed.
+(* the unlocked test-then-add is NOT a once-only initialisation: two threads may both list the bucket (harmless) *)
+Lemma verify_example :
+  let c := uexec _ _ (vline (fun b => Z.of_nat b) c20_verify_bucket_code) (vstart (fun t => t)) [] 
+                 [2; 2; 3; 3; 2; 3; 2; 3; 2; 3; 2; 3; 2; 3; 2; 3; 0; 0; 0; 1; 1; 1; 1; 1] in
+  map (fun t => match g_th c t with GDone lo => v_out lo | _ => (-1)%Z end) [0; 1; 2; 3] = [2; 2; 1; 1]%Z /\ g_sh c = [3; 2].
+Proof. vm_compute. split; reflexivity. Qed.
+Lemma verify_site_facts :
+  c20_verified_buckets_users = ["__init__"%string; "_verify_bucket"%string] /\ c20_verified_buckets_init_empty = true /\
+  c20_get_chunk_verifies_on_404 = true.
+Proof. repeat split; reflexivity. Qed.
